@@ -1470,18 +1470,17 @@ class HttpHeaderFieldValueSetCookie(FieldValueBase):  # pylint: disable=too-many
 
         parser.parse_string_until_separator('name', '=')
         parser.parse_separator('=')
-        parser.parse_string_until_separator_or_end('value', '; ')
+        parser.parse_string_until_separator_or_end('value', ';')
 
-        parser.parse_separator(' ', min_length=0)
         if parser.unparsed:
             parser.parse_separator(';')
-        parser.parse_separator(' ', min_length=0)
+        parser.parse_separator(' \t', min_length=0)
 
         parser.parse_parsable('params', HttpHeaderFieldValueSetCookieParams)
 
         attributes = {
-            'name': parser['name'],
-            'value': parser['value'],
+            'name': parser['name'].strip(' \t'),
+            'value': parser['value'].strip(' \t'),
         }
         params = parser['params']
         attributes.update({
